@@ -746,6 +746,28 @@ def apply(func, args, kwargs=None):
             except Undefined:
                 pass
     if func == "getitem" and len(args) == 2 and x is not None and not extra and isinstance(args[1], Rat):
+        # data.get_scores([f0, f1, f2], ...)[-1] is element 2: a request for a literal field list returns one array per field
+        gs0 = x.as_atom("call:data.get_scores")
+        kv0 = args[1].const_value()
+        if gs0 is not None and gs0.args and isinstance(gs0.args[0], tuple) and kv0 is not None and kv0 < 0 and kv0 == int(kv0) and -int(kv0) <= len(gs0.args[0]):
+            return apply("getitem", [x, Rat.const(len(gs0.args[0]) + int(kv0))])
+    if func == "m:get" and len(args) in (2, 3) and x is not None and not extra and isinstance(args[1], Rat):
+        # {k1: v1, k2: v2}.get(key[, default]) with a key that is literally one of the keys, or an instance of another class than every key
+        pdg = x.as_atom("pydict")
+        if pdg is not None and pdg.args and isinstance(pdg.args[0], tuple):
+            flat_ = pdg.args[0]
+            keys_g, vals_g = flat_[0::2], flat_[1::2]
+            kk = args[1].key()
+            for k_g, v_g in zip(keys_g, vals_g):
+                if isinstance(k_g, Rat) and k_g.key() == kk and isinstance(v_g, Rat):
+                    return v_g
+
+            def _inst(r_):
+                a_ = r_.as_atom() if isinstance(r_, Rat) else None
+                return a_.func if a_ is not None and a_.func.startswith("call:verif.") and not a_.args else None
+            if _inst(args[1]) is not None and all(_inst(k_g) is not None and _inst(k_g) != _inst(args[1]) for k_g in keys_g):
+                return args[2] if len(args) == 3 and isinstance(args[2], Rat) else Rat.sym("None")
+    if func == "getitem" and len(args) == 2 and x is not None and not extra and isinstance(args[1], Rat):
         # (a, b, c)[k] with a literal k: the entry of a literal tuple / list
         pl0 = x.as_atom("pylist")
         kv = args[1].const_value()
